@@ -63,9 +63,9 @@ type KnownFinding struct {
 	// part of the obligation name — the source text of the call — is ignored),
 	// so that moving the call into a helper does not turn a recorded finding
 	// into a new alarm. Default: the full obligation name must match.
-	Match string `json:"match,omitempty"`
-	Commit     string `json:"commit,omitempty"`
-	Replay     string `json:"replay,omitempty"`
+	Match  string `json:"match,omitempty"`
+	Commit string `json:"commit,omitempty"`
+	Replay string `json:"replay,omitempty"`
 }
 
 type ObligResult struct {
